@@ -11,7 +11,8 @@ COQ_TARGET = "props/C07.v"
 THEOREMS = ["C07_numerals_bounded", "C07_hex_numerals_bounded", "C07_saturation_is_cap", "C07_writer_total",
             "C07_lex_terminates_partial", "C07_lex_f_terminates_partial", "C07_lex_f_terminates_length", "C07_lex_terminates_initial",
             "C07_builtin_rhythm_inert", "C07_lex_keeps_rhythm_table", "C07_reader_suffix", "C07_lex_terminates_refuted",
-            "C07_lex_rhythm_recursion_diverges"]
+            "C07_lex_rhythm_recursion_diverges",
+            "C07_compile_never_panics", "C07_lex_never_panics", "C07_exec_never_panics", "C07_compile_outcomes"]
 RULE = ("every sequence of up to k lexical fragments from the language's alphabet (k=2 quick over the full alphabet, "
         "k=3 over a reduced alphabet; thorough k=3 full), random junk text incl. non-ASCII, grammar programs with arguments "
         "dropped/duplicated/out of range (every command name of the implementation's table x 16 argument shapes, every reservation head x "
